@@ -324,6 +324,19 @@ class EpisodeMonitor:
                         if lbl != inst and prev.get(lbl) != d:
                             self.fail("C20", f"{op}: resuming the call changed another cache instance {lbl}")
                     before, after = prev.get(inst), dumps.get(inst)
+                    # whatever the resumed call stored is a NEW entry: its lifetime starts at the resumption, not at the
+                    # store of another call for the same arguments that completed while this one was suspended
+                    if after and key in after[0] and o.get("ret") is not None and after[0][key][0] == o["ret"] and after[0][key][2] >= 1000 \
+                            and not (before and key in before[0] and before[0][key][0] == o["ret"] and not o.get("pred") and s["cache_if"]):
+                        stored_now = True
+                        if s["cache_if"] and o.get("pred"):
+                            stored_now = o["pred"][0][3] == "1"
+                        if s["is_result"] and not s["cache_if"] and o["ret"].startswith(HEX_ERR):
+                            stored_now = False
+                        oversize = s["use_mem"] and s["maxmem"] is not None
+                        if stored_now and not oversize and not (before and key in before[0] and before[0][key][0] == o["ret"] and before[0][key][2] == after[0][key][2] and self.det):
+                            self.fail("C20", f"{op}: the result stored by the resumed call is {after[0][key][2]} ms old right after the store (it inherited the birth time of an entry "
+                                             f"stored for the same arguments while the call was suspended and will expire early)")
                     if before and after and key in before[0] and s["maxmem"] is None:
                         lost = [k for k in before[0] if k != key and k not in after[0]]
                         if lost:
